@@ -85,8 +85,8 @@ func (s *Schema) Example() ([]byte, error) {
 // it doesn't outlive the generation.
 func (s *Schema) generateExample() ([]byte, error) {
 	example, err := s.exampleOnce.Do(func() ([]byte, error) {
-		example, err := generate(s.pattern, s.generatorSeed)
-		if err != nil {
+		example, ok := matchingExample(s.pattern, s.generatorSeed)
+		if !ok {
 			e := errors.Format(errors.ErrRegexExample, s.file.Content())
 			err := errors.NewDocumentError(s.file, e)
 			err.SetIndex(bytes.Index(0))
@@ -100,6 +100,52 @@ func (s *Schema) generateExample() ([]byte, error) {
 
 	// Return a copy, the caller is free to change it.
 	return append(make([]byte, 0, len(example)), example...), nil
+}
+
+// exampleAttempts is the number of strings generated in search of the one which
+// matches the pattern.
+const exampleAttempts = 10
+
+// examplePaddings are put before and after a generated string which doesn't
+// match the pattern: a word and a non-word character.
+var examplePaddings = []string{"", "a", " "}
+
+// matchingExample returns a string which matches the pattern.
+//
+// The generator knows nothing about the zero-width assertions (\b, \B, ^, $, ...)
+// so the generated string may not match the pattern, e.g. "foo" for \Bfoo. Then
+// strings for the following seeds are tried, and then the generated strings
+// with a character before and/or after them: the pattern is searched for in a
+// string, so the additional characters are harmless, but they are what
+// an assertion at the edge of the string may require.
+func matchingExample(pattern string, seed int64) (string, bool) {
+	re, err := regexp.Compile(pattern)
+	if err != nil {
+		return "", false
+	}
+
+	candidates := make([]string, 0, exampleAttempts)
+	for i := int64(0); i < exampleAttempts; i++ {
+		candidate, err := generate(pattern, seed+i)
+		if err != nil {
+			continue
+		}
+		if re.MatchString(candidate) {
+			return candidate, true
+		}
+		candidates = append(candidates, candidate)
+	}
+
+	for _, candidate := range candidates {
+		for _, before := range examplePaddings {
+			for _, after := range examplePaddings {
+				if example := before + candidate + after; re.MatchString(example) {
+					return example, true
+				}
+			}
+		}
+	}
+	return "", false
 }
 
 // generate generates a string for the pattern. The generator panics on a
